@@ -113,7 +113,8 @@ class MoreInfoFromHeaderMixin:
 
         try:
             date = parsedate_to_datetime(value)
-        except (TypeError, ValueError):
+        except (TypeError, ValueError, OverflowError):
+            # OverflowError: a year, second or zone offset with absurdly many digits
             return None
 
         if date.tzinfo is None:
